@@ -102,6 +102,18 @@ func genC05(g *Rng, tier string, emit func(Op)) {
 			if nb < len(pk.R) {
 				emit(sigOp(kp.id, sig, append(append([]*big.Int{}, ms...), bi(1)), "longer-block", "reject"))
 			}
+			// a block with more messages than the key has bases is never covered by the signature
+			// (the unchanged verifier panics on it, which is not an acceptance)
+			{
+				over := append([]*big.Int{}, ms...)
+				for len(over) <= len(pk.R) {
+					over = append(over, attrValue(g, pk.Params.Lm))
+				}
+				if over[len(over)-1].Sign() == 0 {
+					over[len(over)-1] = bi(1)
+				}
+				emit(sigOp(kp.id, sig, over, "more-messages-than-bases", "reject|panic"))
+			}
 			other := keys[(ki+1)%len(keys)]
 			if nb <= len(other.pk.R) && other != kp {
 				emit(sigOp(other.id, sig, ms, "other-key", "reject"))
